@@ -431,3 +431,22 @@ Fixpoint enc_fields_reprs (e : estate) (fs : list hfield) : estate * list repr :
 (* one header block *)
 Definition enc_block (e : estate) (fs : list hfield) : estate * bytes :=
   let r := enc_fields_reprs e fs in (fst r, flat_map ser_repr (snd r)).
+
+(* ================================================================= an encoder/decoder session *)
+(* header blocks interleaved with table-size changes (SETTINGS_HEADER_TABLE_SIZE -> SetMaxDynamicTableSize) *)
+Inductive hop := OBlock (fs : list hfield) | OSetMax (v : N).
+
+Fixpoint run_session (e : estate) (d : dstate) (ops : list hop) : list (list hfield * wres) * estate * dstate :=
+  match ops with
+  | [] => ([], e, d)
+  | OSetMax v :: r => run_session (enc_set_max e v) d r
+  | OBlock fs :: r =>
+      let eb := enc_block e fs in
+      let db := dec_block d (snd eb) in
+      let rest := run_session (fst eb) (fst (fst db)) r in
+      ((snd (fst db), snd db) :: fst (fst rest), snd (fst rest), snd rest)
+  end.
+
+(* what the decoder must report: every block's list, each decoded without error *)
+Definition blocks_of (ops : list hop) : list (list hfield * wres) :=
+  flat_map (fun o => match o with OBlock fs => [(fs, WOk)] | OSetMax _ => [] end) ops.
